@@ -153,10 +153,27 @@ inductive ConstructResult where
   | rejected (why : String)
 deriving Repr
 
-/-- `CredentialBuilder.ConstructCredential(msg, attributes)` without witness: `attributes` has
-    `none` at random-blind positions. -/
+/-- the non-revocation witness of an `IssueSignatureMessage`: `(u, e, signed accumulator)`;
+    `witnessOk` is the outcome of `Witness.Verify(pk)` (signature oracle + `u^e = ν`). -/
+structure MsgWitness where
+  u : Option Int
+  e : Option Int
+  /-- result of `SignedAccumulator.UnmarshalVerify`: the accumulator value ν if the signature verifies -/
+  nu : Option Int
+  hasSacc : Bool
+deriving Repr
+
+/-- `Witness.Verify(pk)` (after the repair: incomplete witnesses are an error). -/
+def MsgWitness.verify (pk : PublicKey) (w : MsgWitness) : Bool :=
+  match w.u, w.e, w.hasSacc, w.nu with
+  | some u, some e, true, some nu => goExp u e pk.n == some nu
+  | _, _, _, _ => false
+
+/-- `CredentialBuilder.ConstructCredential(msg, attributes)`: `attributes` has `none` at
+    random-blind positions. -/
 def CredBuilder.construct (pk : PublicKey) (b : CredBuilder) (proofS : Option ProofS) (sig : Option CLSignature)
-    (mIssuer : List (Int × Option Int)) (attributes : List (Option Int)) : GoM ConstructResult := do
+    (mIssuer : List (Int × Option Int)) (attributes : List (Option Int))
+    (witness : Option MsgWitness := none) : GoM ConstructResult := do
   let some ps := proofS | return .rejected "incomplete"
   let some sg := sig | return .rejected "incomplete"
   if !(← ps.verify pk sg b.context b.nonce2) then return .rejected "proofS"
@@ -168,8 +185,15 @@ def CredBuilder.construct (pk : PublicKey) (b : CredBuilder) (proofS : Option Pr
     match (mIssuer.lookup i).join with
     | none => return .rejected "issuer share missing"
     | some mi => ms := ms.set i.toNat (some (mi + miUser))
+  match witness with
+  | some w => if !w.verify pk then return .rejected "witness"
+  | none => pure ()
   let vals ← ms.mapM (deref "attribute")
   if !(← clVerify pk signature vals) then return .rejected "signature"
+  -- `NonrevIndex`: the witness value must be one of the attributes
+  match witness with
+  | some w => if !(vals.contains (w.e.getD 0)) then return .rejected "revocation attribute"
+  | none => pure ()
   return .credential signature vals
 
 end Gabi
